@@ -1,3 +1,43 @@
-(* C03 — statements are added with the proofs; see DESIGN.md *)
+(* C03 — Untrusted bytes never crash the decoder, the client or the reassembler. Statements only. *)
 From Coq Require Import List NArith Bool.
-From Rustun Require Import Agent.Rto Agent.Model Agent.Monitors.
+Import ListNotations.
+From Rustun Require Import Base.Tlv Codec.Filter Codec.DecodeLoop Codec.InputText Codec.Wire Codec.AttrValue Codec.WireFull
+                           Proofs.WireProofs Proofs.AttrValueProofs
+                           Agent.Reasm Agent.ReasmDrive Agent.ReasmRs Proofs.ReasmRsProofs
+                           Agent.Rto Agent.Model Proofs.AgentInv.
+Open Scope N_scope.
+
+(* the message decoder: for every byte string, every decoder configuration and whatever the typed decoders do, the result
+   is a message or an error (the raw TLV walk has an explicit Panic outcome when its fuel runs out; it never does) *)
+Theorem C03_decode_no_panic : forall dec_ok ctx b, decode dec_ok ctx b <> WPanic.
+Proof. exact WireProofs.decode_no_panic. Qed.
+(* on success the reported size is 20 + the header length field and does not exceed the input *)
+Theorem C03_decode_size : forall dec_ok ctx b s p, decode dec_ok ctx b = WOk s p -> s = 20 + msg_length b /\ s <= len b.
+Proof. exact WireProofs.decode_size. Qed.
+Print Assumptions C03_decode_no_panic.
+Print Assumptions C03_decode_size.
+
+(* the 38 typed attribute decoders (every slice, index, read, unwrap and checked addition of the Rust is a separate
+   model step with a Panic outcome): no value a TLV can carry makes any of them panic; and whatever they return can be
+   encoded again without a panic *)
+Theorem C03_typed_decoders_no_panic : forall ud hdr ty v, len v < 65536 -> av_dec_attr ud hdr ty v <> VPanic.
+Proof. exact AttrValueProofs.dec_attr_no_panic. Qed.
+Theorem C03_decoded_values_encodable_without_panic : forall ud hdr ty v a hdr' ty' room,
+  av_dec_attr ud hdr ty v = VOk a -> av_enc_attr hdr' ty' a room <> VPanic.
+Proof. exact AttrValueProofs.dec_then_enc_no_panic. Qed.
+Print Assumptions C03_typed_decoders_no_panic.
+Print Assumptions C03_decoded_values_encodable_without_panic.
+
+(* the stream reassembler, in any chunking, with the slice bounds and checked subtractions of lib.rs explicit *)
+Theorem C03_reassembler_no_panic : forall B chunks cs, 20 <= B -> In cs (run_log B chunks) -> ~ In CPanic cs.
+Proof. exact ReasmRsProofs.run_log_no_panic. Qed.
+Print Assumptions C03_reassembler_no_panic.
+
+(* the client: every received buffer yields a value or an error and the client remains usable: the invariant of the
+   outstanding table and timers is preserved by every operation, and a rejected buffer changes nothing *)
+Theorem C03_client_stays_usable : forall c o, Inv c -> fresh_for c o -> Inv (fst (fst (step c o))).
+Proof. exact AgentInv.inv_step. Qed.
+Theorem C03_recv_replies : forall c now d w,
+  let r := snd (fst (step c (Recv now d w))) in r = ROk None \/ r = RDiscarded \/ r = RStunCheck \/ r = RInternal.
+Proof. exact AgentInv.recv_replies. Qed.
+Print Assumptions C03_client_stays_usable.
